@@ -88,6 +88,7 @@ package cache
 //@   ensures [C10.nojitter] !unl && J <= 0.0 ==> result == T
 //@   ensures [C10.eff] !unl && J > 0.0 ==>
 //@       abs(real(result) - real(T)) <= abs(real(T)) * J / 2.0 + 1.0 + abs(real(T)) * J / 1125899906842624.0
+//@   requires c.expirationsSet >= 0 && c.expirationsSet < 4611686018427387904
 //@   ensures [C11.counter] c.expirationsSet == old(c.expirationsSet) + ((c.Config.TimeToLive == UnlimitedTTL && result != 0) ? 1 : 0)
 //@   ensures [C11.counter.nonneg] old(c.expirationsSet) >= 0 ==> c.expirationsSet >= old(c.expirationsSet)
 //@   modifies H|Trait|.expirationsSet G|cnt|rand G|rand
@@ -172,3 +173,189 @@ package cache
 //@   loop 1 invariant [C17.inv.calls] calls("Invalidator.Callbacks[]") == rangeindex + 1
 //@   loop 1 invariant [C17.inv.order] forall j int :: 0 <= j && j <= rangeindex ==>
 //@       arg("Invalidator.Callbacks[]", j + 1, 0) == cbs[j]
+
+// ---------------------------------------------------------------------------------------------------
+// trait.go: PrepareRead (C07 outcome of a read, C10 expiry comparison, C12 usage bookkeeping, C18 metrics)
+// ---------------------------------------------------------------------------------------------------
+
+//@ def onlyMetric(name, inc) := metric(name) == old(metric(name)) + inc
+//@     && (forall n string :: n != name ==> metric(n) == old(metric(n)))
+//@ def noMetric() := forall n string :: metric(n) == old(metric(n))
+//@ def isExpiredAt(e, t) := e.E != 0 && e.E < t
+//@ def entryKept(p) := p.K == old(p.K) && p.V == old(p.V) && p.E == old(p.E)
+
+//@ func (*Trait).PrepareRead
+//@   props C07 C18
+//@   requires ctx != nil
+//@   requires found ==> cacheEntry != nil
+//@   ensures [C07.pr.miss] !found ==> result0 == nil && result1 == ErrNotFound && clockReads() == 0
+//@   ensures [C07.pr.clock] found ==> clockReads() == 1
+//@   ensures [C07.pr.hit] found && !isExpiredAt(cacheEntry, now(1)) ==> result0 == cacheEntry.V && result1 == nil
+//@   ensures [C07.pr.expired] found && isExpiredAt(cacheEntry, now(1)) ==> result0 == nil && dyntype(result1, errExpired)
+//@       && payload(result1, errExpired).entry == cacheEntry
+//@   ensures [C18.pr.miss] c.Stat != nil && !found ==> onlyMetric(MetricMiss, 1.0)
+//@   ensures [C18.pr.hit] c.Stat != nil && found && !isExpiredAt(cacheEntry, now(1)) ==> onlyMetric(MetricHit, 1.0)
+//@   ensures [C18.pr.expired] c.Stat != nil && found && isExpiredAt(cacheEntry, now(1)) ==> onlyMetric(MetricExpired, 1.0)
+//@   ensures [C18.pr.nostat] c.Stat == nil ==> noMetric()
+//@   ensures [C12.pr.lru] found && c.Config.EvictionStrategy == EvictLeastRecentlyUsed ==> cacheEntry.C == now(1)
+//@   ensures [C12.pr.lfu] found && c.Config.EvictionStrategy == EvictLeastFrequentlyUsed ==> cacheEntry.C == old(cacheEntry.C) + 1
+//@       || old(cacheEntry.C) == MaxInt64
+//@   ensures [C12.pr.mostexpired] found && c.Config.EvictionStrategy == EvictMostExpired ==> cacheEntry.C == old(cacheEntry.C)
+//@   ensures [C07.pr.frame] forall p *TraitEntry :: entryKept(p) && (p != cacheEntry ==> p.C == old(p.C))
+//@   modifies H|TraitEntry|.C G|metric G|cnt|* G|arg|* G|res|* G|clock G|clk G|nclk
+
+// ---------------------------------------------------------------------------------------------------
+// sharded_map.go: ShardedMap as a map with per-entry expiry (C07), key isolation (C09), metrics (C18)
+// ---------------------------------------------------------------------------------------------------
+
+// The shard of hash h and the entry stored under h.
+//@ def bucket(c, h) := c.hashedBuckets[h % 128]
+//@ def hasH(c, h) := has(bucket(c, h).data, h)
+//@ def ent(c, h) := bucket(c, h).data[h]
+// Representation invariant: every bucket has a map; stored entries are non-nil.
+//@ def keysInShard(c) := forall i int :: forall h uint64 :: 0 <= i && i < 128 && has(c.hashedBuckets[i].data, h) ==> h % 128 == i
+//@ def repOK(c) := c.t != nil && (forall i int :: 0 <= i && i < 128 ==> c.hashedBuckets[i].data != nil)
+//@     && (forall i int :: forall j int :: 0 <= i && i < j && j < 128 ==> c.hashedBuckets[i].data != c.hashedBuckets[j].data)
+//@     && keysInShard(c)
+//@     && (forall h uint64 :: hasH(c, h) ==> ent(c, h) != nil)
+// The abstract view: key bytes kb are present iff the entry under hash(kb) carries exactly these bytes.
+//@ def present(c, kb) := hasH(c, hash(kb)) && bytes(ent(c, hash(kb)).K) == kb
+//@ def mapKept(c) := forall h uint64 :: hasH(c, h) == old(hasH(c, h)) && ent(c, h) == old(ent(c, h))
+//@ def entriesKept() := forall p *TraitEntry :: old(allocated(p)) ==> entryKept(p)
+
+//@ type hashedBucket
+//@   props C08 C16
+//@   guardedby data RWMutex
+
+//@ func (*shardedMap).Read
+//@   props C07 C09 C08 C16
+//@   requires ctx != nil && repOK(c)
+//@   let kb := bytes(key)
+//@   let e := old(ent(c, hash(kb)))
+//@   let found := old(present(c, kb))
+//@   ensures [C07.read.skip] skipRead(ctx) ==> result0 == nil && result1 == ErrNotFound && noMetric()
+//@   ensures [C07.read.miss] !skipRead(ctx) && !found ==> result0 == nil && result1 == ErrNotFound
+//@   ensures [C07.read.hit] !skipRead(ctx) && found && !isExpiredAt(e, now(1)) ==> result0 == e.V && result1 == nil
+//@   ensures [C07.read.expired] !skipRead(ctx) && found && isExpiredAt(e, now(1)) ==> result0 == nil
+//@       && dyntype(result1, errExpired) && payload(result1, errExpired).entry == e && errIs(result1, ErrExpired)
+//@   ensures [C09.read.isolation] result1 == nil || dyntype(result1, errExpired) ==> found
+//@   ensures [C07.read.frame] mapKept(c) && entriesKept()
+//@   ensures [C18.read.miss] c.t.Stat != nil && !skipRead(ctx) && !found ==> onlyMetric(MetricMiss, 1.0)
+//@   ensures [C18.read.hit] c.t.Stat != nil && !skipRead(ctx) && found && !isExpiredAt(e, now(1)) ==> onlyMetric(MetricHit, 1.0)
+//@   ensures [C18.read.expired] c.t.Stat != nil && !skipRead(ctx) && found && isExpiredAt(e, now(1)) ==> onlyMetric(MetricExpired, 1.0)
+//@   modifies H|TraitEntry|.C G|metric G|cnt|* G|arg|* G|res|* G|clock G|clk G|nclk
+
+// Write: view' = view[k -> (v, E)], E per C10; other hashes untouched; a colliding key is dropped (a miss, C09);
+// the stored key is a fresh copy (C09: no reference to the caller's slice is retained).
+
+//@ func (*shardedMap).Write
+//@   props C07 C09 C10 C08 C16 C18
+//@   requires ctx != nil && repOK(c)
+//@   requires c.t.Config.ExpirationJitter <= 1.0
+//@   requires abs(ttlOf(ctx) != 0 ? ttlOf(ctx) : c.t.Config.TimeToLive) <= 1577880000000000000
+//@   requires c.t.expirationsSet >= 0 && c.t.expirationsSet < 4611686018427387904
+//@   let kb := old(bytes(k))
+//@   let h := hash(kb)
+//@   let J := c.t.Config.ExpirationJitter
+//@   let unl := ttlOf(ctx) == 0 && c.t.Config.TimeToLive == UnlimitedTTL
+//@   let T := ttlOf(ctx) != 0 ? ttlOf(ctx) : c.t.Config.TimeToLive
+//@   ensures [C07.write.ok] result == nil
+//@   ensures [C07.write.stored] hasH(c, h) && ent(c, h) != nil && bytes(ent(c, h).K) == kb && ent(c, h).V == v
+//@   ensures [C07.write.others] forall h2 uint64 :: h2 != h ==> hasH(c, h2) == old(hasH(c, h2)) && ent(c, h2) == old(ent(c, h2))
+//@   ensures [C07.write.entries] entriesKept() && (forall p *TraitEntry :: old(allocated(p)) ==> p.C == old(p.C))
+//@   ensures [C09.write.copy] fresh(ent(c, h)) && fresh(base(ent(c, h).K))
+//@   ensures [C10.write.never] unl ==> ent(c, h).E == 0
+//@   ensures [C10.write.exact] !unl && J <= 0.0 ==> ent(c, h).E == (T == 0 ? 0 : now(1) + T)
+//@   ensures [C10.write.jitter] !unl && J > 0.0 && ent(c, h).E != 0 ==>
+//@       abs(real(ent(c, h).E - now(1)) - real(T)) <= abs(real(T)) * J / 2.0 + 1.0 + abs(real(T)) * J / 1125899906842624.0
+//@   ensures [C18.write.metric] c.t.Stat != nil ==> onlyMetric(MetricWrite, 1.0)
+//@   ensures [C18.write.nostat] c.t.Stat == nil ==> noMetric()
+//@   ensures [C07.write.repok] repOK(c)
+//@   modifies H|TraitEntry|* E|byte|* M|map[uint64]*TraitEntry|* H|Trait|.expirationsSet G|metric G|cnt|* G|arg|* G|res|* G|clock G|clk G|nclk G|rand
+
+// Delete: ErrNotFound exactly for keys that are not present (a colliding key is not present); otherwise the
+// entry of exactly this key is removed; nothing else changes.
+
+//@ func (*shardedMap).Delete
+//@   props C07 C09 C08 C16 C18
+//@   requires ctx != nil && repOK(c)
+//@   let kb := bytes(key)
+//@   let h := hash(kb)
+//@   let found := old(present(c, kb))
+//@   ensures [C07.delete.notfound] !found <==> result == ErrNotFound
+//@   ensures [C07.delete.found] found <==> result == nil
+//@   ensures [C07.delete.removed] found ==> !hasH(c, h)
+//@   ensures [C09.delete.isolation] !found ==> hasH(c, h) == old(hasH(c, h)) && ent(c, h) == old(ent(c, h))
+//@   ensures [C07.delete.others] forall h2 uint64 :: h2 != h ==> hasH(c, h2) == old(hasH(c, h2)) && ent(c, h2) == old(ent(c, h2))
+//@   ensures [C07.delete.entries] entriesKept()
+//@   ensures [C18.delete.metric] c.t.Stat != nil && found ==> onlyMetric(MetricDelete, 1.0)
+//@   ensures [C18.delete.none] c.t.Stat == nil || !found ==> noMetric()
+//@   ensures [C07.delete.repok] repOK(c)
+//@   modifies M|map[uint64]*TraitEntry|* G|metric G|cnt|* G|arg|* G|res|*
+
+// Load / Store are Read / Write with the background context.
+
+//@ func (*shardedMap).Load
+//@   props C07
+//@   requires repOK(c)
+//@   let kb := bytes(key)
+//@   let e := old(ent(c, hash(kb)))
+//@   let found := old(present(c, kb))
+//@   ensures [C07.load.hit] found && !isExpiredAt(e, now(1)) ==> result0 == e.V && result1
+//@   ensures [C07.load.miss] !found || isExpiredAt(e, now(1)) ==> result0 == nil && !result1
+//@   ensures [C07.load.frame] mapKept(c) && entriesKept()
+//@   modifies H|TraitEntry|.C G|metric G|cnt|* G|arg|* G|res|* G|clock G|clk G|nclk
+
+// deleteExpired(before): removes exactly the entries that expired before the boundary; never-expiring entries
+// (E == 0) and everything else survive unchanged (C11). The clause is taken from the property statement.
+
+//@ def longExpired(e, boundary) := e.E != 0 && e.E < boundary
+
+//@ func (*shardedMap).deleteExpired
+//@   props C11 C08 C16
+//@   requires repOK(c)
+//@   requires abs(before) < 4611686018427387904
+//@   ensures [C11.exact] forall h uint64 :: hasH(c, h) == (old(hasH(c, h)) && !longExpired(old(ent(c, h)), before))
+//@   ensures [C11.survivors] (forall h uint64 :: hasH(c, h) ==> ent(c, h) == old(ent(c, h))) && entriesKept()
+//@   ensures [C11.repok] repOK(c)
+//@   loop 1 (range c.hashedBuckets) invariant [C11.outer.bounds] -1 <= rangeindex && rangeindex <= 127
+//@   loop 1 invariant [C11.outer.done] forall h uint64 :: h % 128 <= rangeindex ==>
+//@       hasH(c, h) == (old(hasH(c, h)) && !longExpired(old(ent(c, h)), before))
+//@   loop 1 invariant [C11.outer.todo] forall h uint64 :: h % 128 > rangeindex ==> hasH(c, h) == old(hasH(c, h))
+//@   loop 1 invariant [C11.outer.ent] forall h uint64 :: hasH(c, h) ==> ent(c, h) == old(ent(c, h))
+//@   loop 1 invariant [C11.outer.shard] keysInShard(c)
+//@   loop 2 (range b.data) invariant [C11.inner.visited] forall h uint64 :: h % 128 == i && visited(h) ==>
+//@       hasH(c, h) == (old(hasH(c, h)) && !longExpired(old(ent(c, h)), before))
+//@   loop 2 invariant [C11.inner.unvisited] forall h uint64 :: h % 128 == i && !visited(h) ==> hasH(c, h) == old(hasH(c, h))
+//@   loop 2 invariant [C11.inner.vis.dom] forall h uint64 :: visited(h) ==> old(has(c.hashedBuckets[i].data, h))
+//@   loop 2 invariant [C11.inner.others.done] forall h uint64 :: h % 128 < i ==>
+//@       hasH(c, h) == (old(hasH(c, h)) && !longExpired(old(ent(c, h)), before))
+//@   loop 2 invariant [C11.inner.others.todo] forall h uint64 :: h % 128 > i ==> hasH(c, h) == old(hasH(c, h))
+//@   loop 2 invariant [C11.inner.ent] forall h uint64 :: hasH(c, h) ==> ent(c, h) == old(ent(c, h))
+//@   loop 2 invariant [C11.inner.shard] keysInShard(c)
+//@   loop 2 invariant [C11.inner.sub] forall h uint64 :: has(c.hashedBuckets[i].data, h) ==> old(has(c.hashedBuckets[i].data, h))
+//@   modifies M|map[uint64]*TraitEntry|*
+//@   replay janitor before=before
+
+// ---------------------------------------------------------------------------------------------------
+// Generic variants: the same contracts, with the entry / error types of the generic code. The generic bodies
+// are verified once, with V an uninterpreted type, which covers every instantiation.
+// ---------------------------------------------------------------------------------------------------
+
+//@ type hashedBucketOf[V]
+//@   props C08 C16
+//@   guardedby data RWMutex
+
+//@ func (*TraitOf[V]).PrepareRead
+//@   like (*Trait).PrepareRead subst TraitEntry=TraitEntryOf[V] errExpired=errExpiredOf[V] nil_value=zeroV
+//@ func (*shardedMapOf[V]).Read
+//@   like (*shardedMap).Read subst TraitEntry=TraitEntryOf[V] errExpired=errExpiredOf[V]
+//@ func (*shardedMapOf[V]).Write
+//@   like (*shardedMap).Write subst TraitEntry=TraitEntryOf[V]
+//@ func (*shardedMapOf[V]).Delete
+//@   like (*shardedMap).Delete subst TraitEntry=TraitEntryOf[V]
+//@ func (*shardedMapOf[V]).Load
+//@   like (*shardedMap).Load subst TraitEntry=TraitEntryOf[V]
+//@ func (*shardedMapOf[V]).deleteExpired
+//@   like (*shardedMap).deleteExpired subst TraitEntry=TraitEntryOf[V]
+//@   replay janitor before=before backend:=shardedof
